@@ -128,7 +128,11 @@ def step (xml : Bool) (st : RSt) (c : Char) : RSt :=
       else if c == '"' || c == '\'' then { st with mode := .doctypeQ c, buf := st.buf ++ [c] }
       else { st with buf := st.buf ++ [c] }
   | .doctypeQ q =>
-      if c == q then { st with mode := .doctype, buf := st.buf ++ [c] } else { st with buf := st.buf ++ [c] }
+      if c == q then { st with mode := .doctype, buf := st.buf ++ [c] }
+      else if !xml && c == '>' then
+        -- html.parser (and the HTML5 tokenizer) end a DOCTYPE at the first `>`, quoted or not; expat is quote-aware
+        { st with mode := .data, toks := .doctype st.buf :: st.toks, buf := [] }
+      else { st with buf := st.buf ++ [c] }
   | .pi q =>
       if c == '>' && (!xml || q) then
         { st with mode := .data,
